@@ -101,6 +101,8 @@ type trans struct {
 	bodies   map[string]string
 	pre      []string
 	tmpN     int
+	nestedEmbeds map[string]bool // structures whose embedded own-package structs are kept as fields (promoted access is written nested)
+	stubFields map[string]map[string]string // structure -> field promoted from a stubbed package -> Lean type
 	nilable  map[string]bool   // interface types whose values may be nil in the translated code (they become `Option`s)
 	foreign  string            // name of the imported package of this repository whose types are used unqualified ("saml" in samlsp)
 	externs  map[string]bool   // functions kept as parameters (fields of Env)
@@ -398,11 +400,42 @@ func (t *trans) expr(e ast.Expr) string {
 			t.failf("%s: selector %s on a value of unknown type", t.cur.name, t.src(x))
 			return "default"
 		}
-		t.useField(sname, x.Sel.Name)
+		base := t.expr(x.X)
 		if isPointer(tv.Type) {
-			return t.derefd(x.X) + "." + x.Sel.Name
+			base = t.derefd(x.X)
 		}
-		return t.expr(x.X) + "." + x.Sel.Name
+		// a field promoted through an embedded struct of this package, in a structure whose embedded field is also used as a
+		// value of its own (`claims.TrackedRequest`, `claims.Index`): the access names the embedded field
+		if sel, ok := t.info.Selections[x]; ok && t.nestedEmbeds[sname] && len(sel.Index()) == 2 {
+			if st, ok := sel.Recv().Underlying().(*types.Struct); ok {
+				if p, isP := sel.Recv().Underlying().(*types.Pointer); isP {
+					st, _ = p.Elem().Underlying().(*types.Struct)
+				}
+				if st != nil {
+					ef := st.Field(sel.Index()[0])
+					if en, _ := namedOf(ef.Type()); en != "" {
+						if _, own := t.structs[en]; own {
+							t.useField(sname, ef.Name())
+							t.useField(en, x.Sel.Name)
+							return base + "." + ef.Name() + "." + x.Sel.Name
+						}
+					}
+				}
+			}
+		}
+		t.useField(sname, x.Sel.Name)
+		if _, direct := t.structs[sname]; direct {
+			if t.promotedFieldType(t.structs[sname], x.Sel.Name, 0) == nil {
+				// promoted from a struct of a stubbed package: the field is generated on the outer structure, typed by go/types
+				if tvx, ok := t.info.Types[x]; ok && tvx.Type != nil {
+					if t.stubFields[sname] == nil {
+						t.stubFields[sname] = map[string]string{}
+					}
+					t.stubFields[sname][x.Sel.Name] = t.leanTypeOf(tvx.Type, t.cur.name)
+				}
+			}
+		}
+		return base + "." + x.Sel.Name
 	case *ast.StarExpr:
 		return t.derefd(x.X)
 	case *ast.UnaryExpr:
@@ -783,6 +816,16 @@ func (t *trans) call(c *ast.CallExpr) string {
 						t.cur.mutable[id.Name] = true
 						return tmp + ".2"
 					}
+				}
+			}
+		}
+		if (f.Sel.Name == "VerifyAudience" || f.Sel.Name == "VerifyIssuer") && len(c.Args) == 2 {
+			// the registered-claims checks of the JWT library: functions of the claims value and the expected string
+			if tv, ok := t.info.Types[f.X]; ok {
+				if sn, _ := namedOf(tv.Type); sn != "" {
+					field := strings.ToLower(f.Sel.Name[:1]) + f.Sel.Name[1:] + "_" + sn
+					t.addExtern(field, t.leanType(ast.NewIdent(sn))+" → String → Bool → Bool")
+					return "(env." + field + " " + t.expr(f.X) + " " + t.args(c.Args) + ")"
 				}
 			}
 		}
@@ -1262,6 +1305,29 @@ func (t *trans) assign(o *out, ind int, x *ast.AssignStmt) {
 					return
 				}
 			}
+			// localStruct.Field = value (a struct value held in a local or a parameter)
+			if id, ok := l.X.(*ast.Ident); ok && !t.isRecv(l.X) && x.Tok == token.ASSIGN {
+				if tv, ok := t.info.Types[l.X]; ok && !isPointer(tv.Type) {
+					if sname, _ := namedOf(tv.Type); sname != "" {
+						if _, own := t.structs[sname]; own {
+							lhs := t.expr(l) // registers the fields; gives the access path
+							path := strings.Split(strings.TrimPrefix(lhs, t.varName(id.Name)+"."), ".")
+							v := t.expr(x.Rhs[0])
+							cur := t.varName(id.Name)
+							upd := ""
+							if len(path) == 1 {
+								upd = "{ " + cur + " with " + path[0] + " := " + v + " }"
+							} else if len(path) == 2 {
+								upd = "{ " + cur + " with " + path[0] + " := { " + cur + "." + path[0] + " with " + path[1] + " := " + v + " } }"
+							}
+							if upd != "" {
+								o.line(ind, cur+" := "+upd)
+								return
+							}
+						}
+					}
+				}
+			}
 			// receiver.Field = value
 			if t.isRecv(l.X) && t.cur.mutRecv && x.Tok == token.ASSIGN {
 				tv := t.info.Types[l.X]
@@ -1550,6 +1616,25 @@ func (t *trans) function(name string) {
 			}
 		}
 	}
+	// x.F = v on a struct *value* held in a local or parameter writes x (pointers and error structs are handled elsewhere)
+	ast.Inspect(fd.Body, func(n ast.Node) bool {
+		if a, ok := n.(*ast.AssignStmt); ok && a.Tok == token.ASSIGN {
+			for _, l := range a.Lhs {
+				if se, ok := l.(*ast.SelectorExpr); ok {
+					if id, ok := se.X.(*ast.Ident); ok {
+						if tv, ok := t.info.Types[se.X]; ok && tv.Type != nil && !isPointer(tv.Type) {
+							if sn, _ := namedOf(tv.Type); sn != "" && !isErrorTypeName(sn) {
+								if _, own := t.structs[sn]; own {
+									ctx.mutable[id.Name] = true
+								}
+							}
+						}
+					}
+				}
+			}
+		}
+		return true
+	})
 	if sp.state != "" {
 		ctx.mutRecv = true
 	}
@@ -1976,6 +2061,7 @@ func translate(repo string, p *pkgFiles, outPath string) {
 		{fn: "GetTrackedRequests", recv: "CookieRequestTracker"},
 		{fn: "GetTrackedRequest", recv: "CookieRequestTracker"},
 		{fn: "GetSession", recv: "CookieSessionProvider", as: "cookieGetSession"},
+		{fn: "Decode", recv: "JWTTrackedRequestCodec", as: "trackedRequestClaimsCheck", anchor: "if err != nil {"},
 		{fn: "HandleStartAuthFlow", recv: "Middleware", as: "startFlowBinding", anchor: "var binding, bindingLocation string", until: "authReq, err :=", yield: "binding", yieldTy: "String"},
 		{fn: "HandleStartAuthFlow", recv: "Middleware", as: "startFlowLocation", anchor: "var binding, bindingLocation string", until: "authReq, err :=", yield: "bindingLocation", yieldTy: "String"},
 	}
@@ -2026,6 +2112,31 @@ func StatusText(code int) string
 	return pkg
 }
 
+// stubJWT: the declarations of github.com/golang-jwt/jwt/v4 that the translated samlsp functions mention
+func stubJWT() *types.Package {
+	const src = `package jwt
+type ClaimStrings []string
+type RegisteredClaims struct { Issuer, Subject, ID string; Audience ClaimStrings }
+func (c RegisteredClaims) VerifyAudience(cmp string, req bool) bool
+func (c RegisteredClaims) VerifyIssuer(cmp string, req bool) bool
+type StandardClaims struct { Audience, Issuer, Subject, Id string }
+func (c *StandardClaims) VerifyAudience(cmp string, req bool) bool
+func (c *StandardClaims) VerifyIssuer(cmp string, req bool) bool
+type SigningMethod interface{ Alg() string }
+type Token struct{}
+type Parser struct{ ValidMethods []string }
+func (p *Parser) ParseWithClaims(s string, claims interface{}, keyFunc func(*Token) (interface{}, error)) (*Token, error)
+`
+	fset := token.NewFileSet()
+	f, err := parser.ParseFile(fset, "jwt.go", src, 0)
+	if err != nil {
+		panic(err)
+	}
+	conf := types.Config{Error: func(error) {}}
+	pkg, _ := conf.Check("github.com/golang-jwt/jwt/v4", fset, []*ast.File{f}, nil)
+	return pkg
+}
+
 type foreignPkg struct {
 	name string // the name it is imported under
 	path string
@@ -2034,7 +2145,7 @@ type foreignPkg struct {
 }
 
 func translatePkg(p *pkgFiles, outPath string, pkgName string, ns string, specs []transSpec, externs map[string]bool, dep *foreignPkg) *types.Package {
-	t := &trans{p: p, nilable: map[string]bool{"Session": pkgName == "samlsp"}, structs: map[string]*ast.StructType{}, ifaces: map[string]*ast.InterfaceType{}, named: map[string]ast.Expr{},
+	t := &trans{p: p, nilable: map[string]bool{"Session": pkgName == "samlsp"}, nestedEmbeds: map[string]bool{"JWTTrackedRequestClaims": true}, stubFields: map[string]map[string]string{}, structs: map[string]*ast.StructType{}, ifaces: map[string]*ast.InterfaceType{}, named: map[string]ast.Expr{},
 		funcs: map[string]*ast.FuncDecl{}, specs: map[string]transSpec{}, usedF: map[string]map[string]bool{}, usedM: map[string]map[string]bool{},
 		envVars: map[string]string{}, done: map[string]bool{}, bodies: map[string]string{},
 		externs: externs, extSigs: map[string]string{}}
@@ -2076,12 +2187,13 @@ func translatePkg(p *pkgFiles, outPath string, pkgName string, ns string, specs 
 			}
 		}
 	}
-	t.info = &types.Info{Types: map[ast.Expr]types.TypeAndValue{}, Uses: map[*ast.Ident]types.Object{}, Defs: map[*ast.Ident]types.Object{}}
+	t.info = &types.Info{Types: map[ast.Expr]types.TypeAndValue{}, Uses: map[*ast.Ident]types.Object{}, Defs: map[*ast.Ident]types.Object{}, Selections: map[*ast.SelectorExpr]*types.Selection{}}
 	imp := &fakeImporter{pkgs: map[string]*types.Package{}}
 	if dep != nil {
 		// the types of the imported package of this repository are real; its declarations are visible under their own names
 		imp.pkgs[dep.path] = dep.pkg
 		imp.pkgs["net/http"] = stubHTTP()
+		imp.pkgs["github.com/golang-jwt/jwt/v4"] = stubJWT()
 		t.foreign = dep.name
 		for _, fn := range sortedFileNames(dep.p) {
 			for _, d := range dep.p.files[fn].Decls {
@@ -2178,6 +2290,10 @@ func translatePkg(p *pkgFiles, outPath string, pkgName string, ns string, specs 
 			for _, fn := range promoted {
 				ft := t.promotedFieldType(st, fn, 0)
 				if ft == nil {
+					if lt, ok := t.stubFields[name][fn]; ok {
+						lines = append(lines, fmt.Sprintf("  %s : %s", fn, lt))
+						continue
+					}
 					t.failf("structure %s: field %s not found (not even through embedded structs)", name, fn)
 					continue
 				}
@@ -2307,6 +2423,9 @@ func (t *trans) promotedFieldType(st *ast.StructType, field string, depth int) a
 		ty := f.Type
 		if se, ok := ty.(*ast.StarExpr); ok {
 			ty = se.X
+		}
+		if id, ok := ty.(*ast.Ident); ok && id.Name == field {
+			return f.Type // the embedded struct named as a field
 		}
 		if id, ok := ty.(*ast.Ident); ok {
 			if inner, ok := t.structs[id.Name]; ok {
